@@ -165,6 +165,13 @@ for _p, _b in (("C06", "multiboot2::Builder"), ("C12", "multiboot2_header::Build
 CLAIMS["C19"]["text"] = "iter_eq_filter: over entries inside the extent the iterator yields EXACTLY the in-use entries in index order (filterMap over 0..n-1: nothing dropped, duplicated or reordered). " + CLAIMS["C19"]["text"]
 CLAIMS["C02"]["text"] = "has_valid_end_tag_eq / has_valid_end_tag_reads_last_8: the translated end-tag check is `typ == 0 && size == 8` on the header `size_of::<EndTag>()` bytes before the end of the payload. " + CLAIMS["C02"]["text"]
 
+for _p, _t in (("C04", "FramebufferTag::buffer_type (all four type classes, palette bound), Reader::read_next_u8 / read_next_u16; pinned one-liners: get_tag = first match by T::ID, framebuffer_tag = the first framebuffer tag, efi_memory_map_tag withheld"),
+               ("C03", "pinned one-liners: tags() = walk over the payload, module_tags / ModuleIter::next = find type Module then cast"),
+               ("C11", "pinned one-liners: get_tag = first match by T::ID, iter() = walk over the payload"),
+               ("C19", "one iteration of ElfSectionIter::next as a step function (decrement, advance, return if in use / skip if Unused, None at 0), ElfSection::get (panic unless 40/64), end_address, dst_len of the ELF tag"),
+               ("C02", "ref_from_ptr = ref_from_slice on exactly total_size() bytes, ref_from_slice precedence; load_eq_closed (load depends only on the declared size and the last 8 bytes: family LOADBIG with really mapped regions up to 4 GiB)")):
+    CLAIMS[_p]["text"] = CLAIMS[_p]["text"].replace("): ", "): " + _t + "; ", 1) if CLAIMS[_p]["text"].startswith("SOURCE = MODEL for function bodies") else _t + ". " + CLAIMS[_p]["text"]
+
 NOT_YET = "not yet claimed: the Lean model, theorems and correspondence check for this property are still being built (DESIGN.md section 12 gives the order); the technique applies and the property will be claimed"
 
 
